@@ -536,6 +536,49 @@ def splice_closures(body, closures, counts):
     return body
 
 
+def closure_heads(body):
+    mask = code_mask(body)
+    heads = []
+    for m in CLOSURE_RX.finditer(mask):
+        j = m.start() - 1
+        while j >= 0 and mask[j] in ' \t\n':
+            j -= 1
+        if j >= 0 and (mask[j].isalnum() or mask[j] in ')]_'):
+            continue   # binary `|` operator
+        heads.append(m)
+    return heads
+
+
+def convert_closures(body, convs, counts):
+    """D26 closure conversion: the n-th closure `|p1, p2, ..| { block }` of the function -- which must capture
+    nothing -- is replaced by the expression given in the unit file (a value of a unit-declared struct), and the
+    unit's template (an `impl <Trait> for <Struct>` whose method has the closure's parameters `$1 $2 ..` and the
+    closure's block `$body`, verbatim) is returned to be emitted after the function."""
+    items = []
+    for n, repl, templ in sorted(convs, key=lambda c: -c[0]):
+        heads = closure_heads(body)
+        if n < 1 or n > len(heads):
+            raise Lost('closure #%d not found (function has %d closures): closure conversion' % (n, len(heads)))
+        m = heads[n - 1]
+        names = [q.split(':')[0].strip() for q in m.group(1).split(',') if q.strip()]
+        k = m.end()
+        while body[k] in ' \t\n':
+            k += 1
+        if body[k] != '{':
+            raise Lost('closure #%d has an expression body: closure conversion needs a block' % n)
+        close = match_close(body, k)
+        block = body[k:close + 1]
+        item = templ.replace('$body', block)
+        for i, nm in enumerate(names):
+            item = item.replace('$%d' % (i + 1), nm)
+        if re.search(r'\$\d', item):
+            raise Lost('closure #%d has %d parameters, fewer than the conversion template uses' % (n, len(names)))
+        body = body[:m.start()] + repl + body[close + 1:]
+        items.append((n, item))
+        counts.hit('D26_closure_converted')
+    return body, items
+
+
 def splice_hints(body, hints, counts):
     for anchor, ghost in hints:
         # structural anchors: independent of the text of any statement
@@ -603,6 +646,7 @@ class FnSpec:
         self.clauses = []
         self.loops = {}
         self.loop_kw = {}
+        self.cloconv = []
         self.hints = []
         self.closures = []
         self.opts = {}
@@ -929,6 +973,14 @@ def assemble(unit_path, repo, vf_dir):
                     mode = 'hint'
                     i += 1
                     continue
+                if st.startswith('%cloconv'):
+                    # %cloconv <n> <replacement expression>   + following indented template lines (D26)
+                    mm = re.match(r'%cloconv\s+(\d+)\s+(.*)$', st)
+                    cur_cc = [int(mm.group(1)), mm.group(2).strip(), '']
+                    f.cloconv.append(cur_cc)
+                    mode = 'cloconv'
+                    i += 1
+                    continue
                 if st.startswith('%closure'):
                     # %closure <n> <annotated header>   + following indented ensures lines
                     # `%closure? n ..`: the annotation is dropped when the function has no n-th closure (the closure was
@@ -952,6 +1004,8 @@ def assemble(unit_path, repo, vf_dir):
                     f.clauses.append(l2)
                 elif mode == 'closure':
                     cur_clo[2] += l2 + '\n'
+                elif mode == 'cloconv':
+                    cur_cc[2] += l2 + '\n'
                 elif mode == 'loop':
                     f.loops[cur_loop] += l2 + '\n'
                 else:
@@ -1028,6 +1082,7 @@ def assemble(unit_path, repo, vf_dir):
             f.hints = [(a, b) for a, b in f.hints if not re.match(r'@loop\s+\d+(\s+end|\s+before)?$', a)]
             body = splice_loops(body, f.loops, A.counts, loop_hints, loop_end_hints, loop_before_hints, f.loop_kw, f.name)
             body = splice_closures(body, f.closures, A.counts)
+            body, clo_items = convert_closures(body, f.cloconv, A.counts)
             body = splice_hints(body, f.hints, A.counts)
             qn = qual(f.newname or f.name)
             first = A.lineno()
@@ -1046,6 +1101,10 @@ def assemble(unit_path, repo, vf_dir):
             A.fn_ranges.append((first, last, qn))
             A.functions.append(dict(name=qn, file=cur_file, sha256=sha, container=stack[-1].header if stack else ''))
             A.counts.hit('fn_extracted')
+            for cn, item in clo_items:
+                c_first = A.lineno()
+                A.emit(item)
+                A.fn_ranges.append((c_first, A.lineno() - 1, qn + '::{closure#%d}' % cn))
         else:
             raise ValueError('%s:%d: cannot parse %r' % (unit_path, i + 1, ln))
     return A
